@@ -205,14 +205,17 @@ Fixpoint gcanon (v : gval) : gval :=
   | _ => v
   end.
 
-(* the same read with the window checked first: the repair proposed for StructureDeserializer (see docs/C05.md) *)
+(* StructureDeserializer::next_element_seed (after commit b5246470):
+     let offsets = subslice(bytes, start..end)?;
+     if !offsets.is_empty() && offsets.len() < offset_size { return Err(OutOfBounds) }
+     offset_size.read_last_offset_from_buffer(offsets) *)
 Definition read_last_checked (st : dst) (a b w : N) : res cerr N :=
   let n := b - a in
-  if n =? 0 then Ok 0
-  else if n <? w then Err EBounds
-  else Ok (le_val (takeN w (from_idx st (b - w)))).
+  if negb (n =? 0) && (n <? w) then Err EBounds
+  else read_last st a b w.
 
-(* [rl] is the reader used for the framing offsets of a tuple's members: [read_last] in the code as it is *)
+(* [rl] is the reader used for the framing offsets of a tuple's members: [read_last_checked] in the code as it is;
+   the bare [read_last] is what the code did before commit b5246470 *)
 Fixpoint gde_gen (rl : dst -> N -> N -> N -> res cerr N) (fuel : nat) (st : dst) {struct fuel} : res cerr (gval * dst) :=
   let gde := gde_gen rl in
   match fuel with
@@ -389,8 +392,9 @@ Fixpoint gde_gen (rl : dst -> N -> N -> N -> res cerr N) (fuel : nat) (st : dst)
       end
   end.
 
-Definition gde : nat -> dst -> res cerr (gval * dst) := gde_gen read_last.
-Definition gde_repaired : nat -> dst -> res cerr (gval * dst) := gde_gen read_last_checked.
+Definition gde : nat -> dst -> res cerr (gval * dst) := gde_gen read_last_checked.
+(* the decoder before commit b5246470, kept for the record of the former finding *)
+Definition gde_before_fix : nat -> dst -> res cerr (gval * dst) := gde_gen read_last.
 
 Definition gde_fuel : nat := 70%nat.
 
